@@ -19,7 +19,9 @@ Record gobs := {
   o_sent : list (list (N * N));     (* payloads handed to Sender.Send during the call, in order *)
   o_sent_gateable : bool;           (* some payload handed to Send was itself Gateable *)
   o_gated : list (N * (N * Z));     (* VerifGated after the call: (id, (#events, expiry)) in list order *)
-  o_index_ok : bool                 (* VerifGated: the id index has exactly one entry per listed group, pointing at it *)
+  o_index_ok : bool;                (* VerifGated: the id index has exactly one entry per listed group, pointing at it *)
+  o_mutated : bool                  (* some slice handed to ComposeFrom earlier (the harness composite keeps the very slice, no copy) no longer
+                                       holds the events it held when it was handed over *)
 }.
 
 Inductive kind :=
@@ -32,6 +34,7 @@ Inductive kind :=
   | KEmptyId       (* observation-only, C11: an event without an id was not rejected *)
   | KSentGateable  (* observation-only, C11: a Gateable composite reached the Broker *)
   | KIndex         (* observation-only: the id index and the ordered list of groups disagree *)
+  | KCompositeMutated (* observation-only, C11: the events of a composite changed after it was built (its slice is shared with a later group) *)
   | KConc.         (* concurrent oracle *)
 
 Definition pair_eqb (a b : N * N) : bool := N.eqb (fst a) (fst b) && N.eqb (snd a) (snd b).
@@ -114,7 +117,8 @@ Definition oracle (c : gcfg) (h : hop) (o : gobs) (st : ostate) : list kind * os
     (match h with HPlain _ => if N.eqb (o_res o) 0 then [] else [KIdent] | _ => if N.eqb (o_res o) 0 then [KIdent] else [] end) ++
     (match h with HEv 0 _ _ => if N.eqb (o_res o) 3 && negb (nonempty (o_compose o)) then [] else [KEmptyId] | _ => [] end) ++
     (if o_sent_gateable o then [KSentGateable] else []) ++
-    (if o_index_ok o then [] else [KIndex]) in
+    (if o_index_ok o then [] else [KIndex]) ++
+    (if o_mutated o then [KCompositeMutated] else []) in
   (ks, {| os_composed := nums ++ os_composed st; os_pend := pend2 |}).
 
 (* ---------- one case ---------- *)
@@ -154,7 +158,8 @@ Record cobs := {
   co_calls_ok : bool;                          (* every FlushAll / Close made by a thread returned nil *)
   co_final_res : N;                            (* result of the final FlushAll *)
   co_final_gated : list (N * (N * Z));
-  co_sent_gateable : bool
+  co_sent_gateable : bool;
+  co_mutated : bool                            (* a slice handed to ComposeFrom changed afterwards (checked after all threads joined) *)
 }.
 Record ccase := { cc_id : N; cc_obs : cobs }.
 
@@ -204,7 +209,8 @@ Definition conc_check (o : cobs) : list kind :=
   (if forallb (fun e => let '(id, n, r, _) := e in if N.eqb id 0 then N.eqb r 3 else true) evs then [] else [KEmptyId]) ++
   (if forallb (fun p => existsb (fun e => let '(id, n, _, _) := e in N.eqb id (fst p) && N.eqb n (snd p)) evs) (concat (co_compose o)) then [] else [KConc]) ++
   (if N.eqb (co_final_res o) 4 && negb (nonempty (co_final_gated o)) then [] else [KLinger]) ++
-  (if co_sent_gateable o then [KSentGateable] else []).
+  (if co_sent_gateable o then [KSentGateable] else []) ++
+  (if co_mutated o then [KCompositeMutated] else []).
 
 Definition conc_mismatches (cs : list ccase) : list (N * (N * N * kind)) :=
   flat_map (fun c => map (fun k => (cc_id c, (0, 7, k))) (conc_check (cc_obs c))) cs.
